@@ -176,6 +176,16 @@ func main() {
 						fn.InlineOnly = true
 					}
 				}
+				if r := sig.Recv(); r != nil && in([]string{"Len", "Less", "Swap", "Push", "Pop"}, obj.Name()) {
+					ms := types.NewMethodSet(types.NewPointer(derefNamed(r.Type())))
+					all := true
+					for _, n := range []string{"Len", "Less", "Swap", "Push", "Pop"} {
+						if ms.Lookup(obj.Pkg(), n) == nil {
+							all = false
+						}
+					}
+					fn.HeapCallback = all
+				}
 				if fn.InlineOnly && fn.Exported {
 					die("%s is exported and takes a *LockPile: cannot be inlined at unknown call sites", name)
 				}
@@ -235,12 +245,8 @@ func main() {
 		} else {
 			body = f.Lit.Body
 		}
-		var late []*S
-		c := ctx{fn: f, pkg: f.Pkg, top: true, late: &late}
+		c := ctx{fn: f, pkg: f.Pkg, top: true}
 		f.Body = t.stmts(c, body.List)
-		for _, d := range late {
-			f.Body = fin(f.Body, d)
-		}
 		if *verbose {
 			fmt.Fprintf(os.Stderr, "translated %s size=%d\n", f.Name, f.Body.size())
 		}
@@ -445,7 +451,7 @@ func main() {
 	b.WriteString("]\n\n")
 	var entries []int
 	for _, f := range rel {
-		if f.Exported {
+		if f.Exported && !f.HeapCallback {
 			entries = append(entries, f.ID)
 		}
 	}
@@ -559,6 +565,11 @@ def names : Diag.Names where
     throw (IO.userError ("C14 lock balance violated: " ++ " || ".intercalate (bad.map (·.2))))
 
 #eval show IO Unit from do
+  let bad := Diag.explainTx names edgeClass relTbl prog
+  if !bad.isEmpty then
+    throw (IO.userError ("C14 transaction (check-then-act) violated: " ++ " || ".intercalate bad))
+
+#eval show IO Unit from do
   let bad := Diag.explainEdges names (fun c => classNames.getD c s!"class#{c}") classNames.length edgeClass acqTbl sigma prog
   if !bad.isEmpty then
     throw (IO.userError ("C14 lock order violated: " ++ " || ".intercalate bad))
@@ -602,11 +613,27 @@ theorem no_entry_point_leaves_a_lock_behind (f : Nat) (hf : f ∈ entries) (tr :
   exact BbRe.Properties.C14.balanced_entry_leaves_nothing sigma prog skeletons_consistent f
     (by simpa using h1) tr he
 
+/-- **Guarded-by, for the code as it is now**: in every returning run of every exported
+function / method, every mutation of state listed in tools/lockskel/guards.json (a need
+event) happens while a lock of a guarding class is held in write mode. -/
+theorem entry_point_mutations_are_locked (f : Nat) (hf : f ∈ entries) (p q : List Ev)
+    (cs : List Nat) (he : Exec prog f (p ++ Ev.need cs :: q)) :
+    ∃ h1, run [] p = some h1 ∧ holdsClass h1 cs = true := by
+  have hb := entry_points_balanced
+  unfold entriesBalanced at hb
+  have h1 := List.all_eq_true.mp hb f hf
+  have hs : sigma.get f = some ([], []) := by simpa using h1
+  obtain ⟨req, post, hs', h, hr, hc⟩ :=
+    BbRe.Properties.C14.guarded_mutations_are_locked sigma prog skeletons_consistent f p q cs he
+  rw [hs] at hs'
+  cases hs'
+  exact ⟨h, hr, hc⟩
+
 /-! ### Transactions -/
 
-/-- Declared check/act pairs on guarded state (`ByteRangeLockSet.Test` … `Set` on
-`OpenedFile.locks`) happen within one critical section: no function acts on a check made
-before the guarding lock was released. (Executable may-analysis `txOk`; not linked to the
+/-- Declared check/act pairs on guarded state (ByteRangeLockSet.Test … Set on
+OpenedFile.locks) happen within one critical section: no function acts on a check made
+before the guarding lock was released. (Executable may-analysis txOk; not linked to the
 path semantics by a theorem.) -/
 theorem transactions_ok : txOk edgeClass relTbl prog = true := by decide +kernel
 
@@ -678,6 +705,13 @@ func countKind(rel []*Fn, k string) int {
 		walk(f.Body)
 	}
 	return n
+}
+
+func derefNamed(ty types.Type) types.Type {
+	if p, ok := ty.(*types.Pointer); ok {
+		return p.Elem()
+	}
+	return ty
 }
 
 func natList(xs []int) string {
